@@ -102,9 +102,9 @@ def obligations(tier):
                 o.append(interleave(spec, rows, nrg, page, fl, cn, om, bs, pj, threads=2 + (si + ci) % 3, timeout=1800))
                 if not q: o.append(handles(spec, rows, nrg, page, fl, cn, om, bs, pj))
             for si, (spec, rows, nrg, page, fl, bs, pj) in enumerate(W2):
-                if q and (si + om + ci) % 3: continue
+                if q and (si % 2 == 0 or (si + om + ci) % 3): continue          # quick: the one-call shapes only
                 o.append(workers(spec, rows, nrg, page, fl, cn, om, bs, pj, threads=2 + (si + om) % 3, timeout=1800))
             for si, (spec, rows, nrg, page, fl, bs, pj) in enumerate(W34):
-                if q and (si + om + ci) % 4: continue
+                if q and (si == 1 or (si + om + ci) % 4): continue
                 o.append(workers(spec, rows, nrg, page, fl, cn, om, bs, pj, threads=2 + (si + om + ci) % 3, timeout=1800))
     return o + lazy_init(q)
